@@ -151,6 +151,101 @@ fn short_result(r: &CaseResult) -> String {
     }
 }
 
+/// Self-test of the harness' own tables and reader (run by MANIFEST.setup_cmd; a failure here is
+/// a harness problem or a tree whose function table differs from the documented one - it is
+/// reported, never counted as a property violation).
+fn selftest() -> i32 {
+    let mut bad = 0;
+    // 1. the signature table is consistent with the name/arity table
+    for e in expr::check_table() {
+        println!("selftest: {}", e);
+        bad += 1;
+    }
+    // 2. every documented name and alias is known to the jawk under test, with the documented arity
+    for d in ftab::FTAB {
+        for name in std::iter::once(&d.name).chain(d.aliases.iter()) {
+            let call = |n: usize| format!("({}{})", name, " null".repeat(n));
+            let ok = runner::run(&[format!("--select={} = x", call(d.min))], b"");
+            if !ok.res.is_ok() {
+                println!("selftest: {} with {} argument(s) is rejected: {}", name, d.min, ok.res.short());
+                bad += 1;
+            }
+            if d.min > 0 {
+                let few = runner::run(&[format!("--select={} = x", call(d.min - 1))], b"");
+                if few.res.is_ok() {
+                    println!("selftest: {} accepts {} argument(s), documented minimum {}", name, d.min - 1, d.min);
+                    bad += 1;
+                }
+            }
+            if d.max < 900 {
+                let many = runner::run(&[format!("--select={} = x", call(d.max + 1))], b"");
+                if many.res.is_ok() {
+                    println!("selftest: {} accepts {} argument(s), documented maximum {}", name, d.max + 1, d.max);
+                    bad += 1;
+                }
+            }
+        }
+    }
+    // 3. the strict reader against serde_json on generated documents
+    {
+        use proptest::strategy::{Strategy, ValueTree};
+        use proptest::test_runner::{Config, RngAlgorithm, TestRng, TestRunner};
+        let mut runner = TestRunner::new_with_rng(Config { failure_persistence: None, ..Config::default() }, TestRng::from_seed(RngAlgorithm::ChaCha, &[7u8; 32]));
+        let strat = (gen::arb_gval(gen::CharSet::Full, 4, 24), gen::arb_spelling());
+        for _ in 0..3000 {
+            let (v, sp) = strat.new_tree(&mut runner).unwrap().current();
+            let text = gen::serialise(&v, &sp);
+            let mine = rjson::parse_one(text.as_bytes());
+            let theirs: Result<serde_json::Value, _> = serde_json::from_str(&text);
+            match (mine, theirs) {
+                (Ok(m), Ok(t)) => {
+                    // structural comparison; numbers as doubles (serde_json's default float reader
+                    // may be one unit in the last place off, and keeps -0)
+                    fn same(t: &serde_json::Value, m: &rjson::RVal) -> bool {
+                        match (t, m) {
+                            (serde_json::Value::Null, rjson::RVal::Null) => true,
+                            (serde_json::Value::Bool(a), rjson::RVal::Bool(b)) => a == b,
+                            (serde_json::Value::String(a), rjson::RVal::Str(b)) => a == b,
+                            (serde_json::Value::Number(n), r) if r.is_num() => {
+                                let (x, y) = (n.as_f64().unwrap_or(f64::NAN), r.as_f64().unwrap());
+                                x == y || (x - y).abs() <= 4e-16 * x.abs().max(y.abs())
+                            }
+                            (serde_json::Value::Array(a), rjson::RVal::Arr(b)) => a.len() == b.len() && a.iter().zip(b).all(|(x, y)| same(x, y)),
+                            (serde_json::Value::Object(a), rjson::RVal::Obj(b)) => a.len() == b.len() && a.iter().zip(b).all(|((k1, v1), (k2, v2))| k1 == k2 && same(v1, v2)),
+                            _ => false,
+                        }
+                    }
+                    if !same(&t, &m) {
+                        println!("selftest: strict reader and serde_json disagree on {}", runner::trunc(&text, 200));
+                        bad += 1;
+                    }
+                }
+                (Err(e), Ok(_)) => {
+                    println!("selftest: strict reader rejects a conforming text ({}): {}", e, runner::trunc(&text, 200));
+                    bad += 1;
+                }
+                (Ok(_), Err(e)) if e.to_string().contains("out of range") => {} // serde_json's own limit near the largest double
+                (Ok(_), Err(e)) => {
+                    // serde_json rejects numbers beyond f64 range etc.; the generator stays finite, so report
+                    println!("selftest: serde_json rejects what the strict reader accepts ({}): {}", e, runner::trunc(&text, 200));
+                    bad += 1;
+                }
+                (Err(_), Err(_)) => {}
+            }
+            if bad > 20 {
+                break;
+            }
+        }
+    }
+    if bad == 0 {
+        println!("selftest: ok ({} functions, {} aliases, 3000 documents)", ftab::FTAB.len(), ftab::FTAB.iter().map(|d| d.aliases.len()).sum::<usize>());
+        0
+    } else {
+        println!("selftest: {} problem(s)", bad);
+        2
+    }
+}
+
 pub fn main_entry() {
     let args: Vec<String> = std::env::args().skip(1).collect();
     let mut prop: Option<String> = None;
@@ -195,6 +290,9 @@ pub fn main_entry() {
         start_watchdog(property, root);
         let rc = replay_file(&mut ctx, &path, &all, false);
         std::process::exit(rc);
+    }
+    if prop.as_deref() == Some("selftest") {
+        std::process::exit(selftest());
     }
     let Some(prop) = prop else {
         eprintln!("usage: jv <Cxx> [--tier quick|thorough] [--seed N] | jv --replay FILE");
